@@ -454,7 +454,7 @@ impl JpegBitstreamReconstructor<'_, '_, '_> {
             // DHT
             0xc4 => {
                 let last_idx = self.huffman_code_ptr.iter().position(|hc| hc.is_last);
-                let num_tables = last_idx.expect("is_last not found") + 1;
+                let num_tables = last_idx.ok_or(Error::InvalidData)? + 1;
                 let (hcs, remainder) = self.huffman_code_ptr.split_at(num_tables);
                 self.huffman_code_ptr = remainder;
 
@@ -626,7 +626,7 @@ impl JpegBitstreamReconstructor<'_, '_, '_> {
                 let hf_global = &self.parsed.hf_global;
 
                 let last_idx = self.quant_ptr.iter().position(|qt| qt.is_last);
-                let num_tables = last_idx.expect("is_last not found") + 1;
+                let num_tables = last_idx.ok_or(Error::InvalidData)? + 1;
                 let (qts, remainder) = self.quant_ptr.split_at(num_tables);
                 self.quant_ptr = remainder;
 
